@@ -106,12 +106,16 @@ def exec_case(ctx, spec):
         return finish(None)
     if spec["broyden"]:
         classes.add("broyden")
+    if spec.get("rcond") is not None or spec.get("sing_val_cutoff") is not None:
+        classes.add("solve(rcond / sing_val_cutoff)")
+    if spec.get("check_limits") is False:
+        classes.add("check_limits=False")
     row0 = {"knobs": [float(v) for v in opt._log["knobs"][0]], "vary_active": opt._log["vary_active"][0],
             "target_active": opt._log["target_active"][0]}
     n_rows_before = len(opt._log["penalty"])
     exc = None
     try:
-        opt.solve(broyden=spec["broyden"])
+        opt.solve(broyden=spec["broyden"], rcond=spec.get("rcond"), sing_val_cutoff=spec.get("sing_val_cutoff"))
     except Exception as e:
         exc = e
     alphas = list(opt._log["alpha"][n_rows_before:])
@@ -147,7 +151,7 @@ def exec_case(ctx, spec):
 
 
 def run(ctx):
-    drive(ctx, cases(), lambda c: exec_case(ctx, c), ctx.n(400, 4000), salt=1, label="C09")
+    drive(ctx, cases(), lambda c: exec_case(ctx, c), ctx.n(900, 6000), salt=1, label="C09")
 
 
 def replay(ctx, case):
